@@ -322,7 +322,20 @@ def run(ctx):
     _set_poi_interpreted(ctx, r6, repo)
     for rel, q, exc, count, what in wants:
         f = repo.func(rel, q)
-        got = sum(1 for r in ast.walk(f.node) if isinstance(r, ast.Raise) and _exc(r) == exc)
+        # raise sites of the function and of the helpers of its module it hands the work to (a check moved into
+        # `_sample_modifier_lookup(...)` is still this function's check)
+        nodes, todo = [], [f]
+        while todo and len(nodes) < 6:
+            g_ = todo.pop()
+            if any(g_.node is n_ for n_ in nodes):
+                continue
+            nodes.append(g_.node)
+            for c_ in A.calls_in(g_.node):
+                nm_ = A.dotted(c_.func) or ""
+                kind_, obj_ = repo.resolve_name(g_.module, nm_) if nm_ and "." not in nm_ else (None, None)
+                if kind_ == "func" and obj_.module is g_.module and obj_.cls is None:
+                    todo.append(obj_)
+        got = sum(1 for nd_ in nodes for r in ast.walk(nd_) if isinstance(r, ast.Raise) and _exc(r) == exc)
         if got >= count:
             ctx.holds(r6, f"{rel}::{q}", f"{got} x raise {exc} ({what})")
         else:
